@@ -502,6 +502,7 @@ func (ft *funcTrans) instr(in ssa.Instruction) {
 	case *ssa.Send:
 		ft.sendReqs(ft.termOf(x.X), ft.termOf(x.Chan), x.Pos())
 		ft.asyncPoint()
+		ft.recordSent(ft.termOf(x.X), "true")
 	case *ssa.Select:
 		for _, stt := range x.States {
 			if stt.Dir == types.SendOnly && stt.Send != nil {
@@ -519,6 +520,22 @@ func (ft *funcTrans) instr(in ssa.Instruction) {
 			lo = 0
 		}
 		ft.assume(fmt.Sprintf("(and %s %s)", w.ile(w.ilit(int64(lo)), tup[0].T.S), w.ilt(tup[0].T.S, w.ilit(int64(n)))))
+		for k, stt := range x.States {
+			chosen := fmt.Sprintf("(= %s %s)", tup[0].T.S, w.ilit(int64(k)))
+			if stt.Dir == types.SendOnly && stt.Send != nil {
+				ft.recordSent(ft.termOf(stt.Send), chosen)
+			}
+			if stt.Dir == types.RecvOnly {
+				// case <-ctx.Done(): taken only when ctx has been cancelled
+				if call, ok := stt.Chan.(*ssa.Call); ok && call.Common().IsInvoke() && call.Common().Method.Name() == "Done" && types.TypeString(call.Common().Value.Type(), nil) == "context.Context" {
+					if srt, ok := w.P.Spec.Ghosts["cancelled"]; ok {
+						h := "G_ghost.cancelled"
+						w.heapSorts[h] = srt
+						ft.assume(fmt.Sprintf("(=> %s (select %s %s))", chosen, w.heapSym(ft.curSt, h), ft.termOf(call.Common().Value).S))
+					}
+				}
+			}
+		}
 	case *ssa.If:
 		c := ft.termOf(x.Cond)
 		ft.setEdges(ft.cur, []string{c.S, "(not " + c.S + ")"})
@@ -1082,4 +1099,24 @@ func substEntryNames(e Expr) Expr {
 		return n
 	}
 	return e
+}
+
+// recordSent: when the spec declares the ghost set `sentSet (Array Int Bool)`, every integer-like
+// value sent on a channel is entered into it (under cond: the send case of a select was chosen).
+func (ft *funcTrans) recordSent(v Term, cond string) {
+	w := ft.w
+	srt, ok := w.P.Spec.Ghosts["sentSet"]
+	if !ok || w.BV || v.Sort.Kind != KInt {
+		return
+	}
+	h := "G_ghost.sentSet"
+	w.heapSorts[h] = srt
+	old := w.heapSym(ft.curSt, h)
+	nw := ft.newHeapVersion(ft.curSt, h)
+	if cond == "true" {
+		w.addFact(fmt.Sprintf("(= %s (store %s %s true))", nw, old, v.S))
+		return
+	}
+	w.addFact(fmt.Sprintf("(=> %s (= %s (store %s %s true)))", cond, nw, old, v.S))
+	w.addFact(fmt.Sprintf("(=> (not %s) (= %s %s))", cond, nw, old))
 }
